@@ -202,7 +202,8 @@ def run(ctx):
                 dws = gen.gen_workspace(droot, ctx.rng, depth=1, venv=False, allow_imports=False)
                 materialize(dws)
                 probe = sorted(r_ for r_ in dws.workspace_py() if r_.endswith("test_probe.py"))[0]
-                nm = dws.spec["names"][0] if dws.spec.get("names") else "fx_a"
+                vis_ = sorted(n_ for n_ in dws.model().visible_names(dws.abs(probe)) if n_.startswith("fx_"))
+                nm = vis_[0] if vis_ else (dws.spec["names"][0] if dws.spec.get("names") else "fx_a")
                 dsteps = [{"op": "only_undeclared", "rel": probe, "text": f"def test_only_body():\n    v = {nm}\n    return {nm}.x\n", "valid": True},
                           {"op": "plain_file", "rel": probe, "text": "def test_plain():\n    pass\n", "valid": True}]
                 lsp_history(ctx, dws, dsteps)
